@@ -3,6 +3,7 @@ Props/C09.lean — C09 "The padding callback is obeyed and existing padding is r
 `Generated/Padding.lean` is PaddingInfo.get_default_padding translated from source on every run.
 -/
 import MutagenModel.Proofs.Container.Flac
+import MutagenModel.Proofs.Container.Id3File
 import MutagenModel.Proofs.Padding
 set_option linter.unusedVariables false
 namespace Mutagen.C09
@@ -54,5 +55,41 @@ theorem flac_keep_is_inplace (L : Layout) (blocks : List Block) (f : Int → Nat
 
 /-! non-vacuity -/
 example : defaultPadding 500 1000000 = 500 ∧ defaultPadding (-3) 1000000 = 2024 ∧ defaultPadding 99999 1000000 = 2024 := by decide
+
+/-! ## free-standing ID3 files -/
+
+/-- ID3: the callback is offered `len(old tag) - (len(frames) + 10)` and told that
+`len(audio) + len(ID3v1 block)` bytes follow; the number of zero bytes between the frames and
+the audio in the saved file is exactly its answer -/
+theorem id3_padding_obeyed (L : Id3F.Layout) (h : L.OK) (vmaj : Nat) (hvm : vmaj = 3 ∨ vmaj = 4) (frames : Bytes)
+    (cb : Int → Nat → Int) (v1opt : Nat) (blk : Bytes) (p : Nat)
+    (hp : cb ((L.tag.length : Int) - (frames.length + 10 : Nat)) (L.audio.length + L.v1.length) = p)
+    (hfit : frames.length + p < 2 ^ 28) :
+    ∃ hd, hd.length = 10 ∧
+      Id3F.save L.render vmaj frames (.callback cb) v1opt blk =
+        .ok (hd ++ frames ++ zeros p ++ L.audio ++ Id3F.newV1 L.v1 v1opt blk) := by
+  obtain ⟨hd, hh, hs⟩ := Id3F.save_layout L h vmaj hvm frames (.callback cb) v1opt blk p (by simpa [getPadding] using hp) hfit
+  obtain ⟨a, b, c, d, h1, _⟩ := Id3F.header_ok vmaj (frames.length + p) hfit
+  rw [h1] at hh; cases hh
+  exact ⟨_, by simp [Id3F.magicID3], hs⟩
+
+/-- returning the offered padding (when it is not negative) leaves the file size and the position
+of the audio unchanged: the new tag is exactly as long as the old one -/
+theorem id3_keep_is_inplace (L : Id3F.Layout) (h : L.OK) (vmaj : Nat) (hvm : vmaj = 3 ∨ vmaj = 4) (frames : Bytes)
+    (blk : Bytes) (hroom : frames.length + 10 ≤ L.tag.length) (hfit : L.tag.length < 2 ^ 28) :
+    ∃ out, Id3F.save L.render vmaj frames (.callback fun p _ => p) 1 blk = .ok out ∧
+      out.length = L.render.length + ((Id3F.newV1 L.v1 1 blk).length - L.v1.length) - (L.v1.length - (Id3F.newV1 L.v1 1 blk).length) ∧
+      out.drop L.tag.length = L.audio ++ Id3F.newV1 L.v1 1 blk := by
+  obtain ⟨hd, hh, hs⟩ := Id3F.save_layout L h vmaj hvm frames (.callback fun p _ => p) 1 blk
+    (L.tag.length - (frames.length + 10)) (by simp [getPadding]; omega) (by omega)
+  obtain ⟨a, b, c, d, h1, _⟩ := Id3F.header_ok vmaj (frames.length + (L.tag.length - (frames.length + 10))) (by omega)
+  rw [h1] at hh; cases hh
+  refine ⟨_, hs, ?_, ?_⟩
+  · simp [Id3F.magicID3, Id3F.Layout.render]; omega
+  · have hl : (Id3F.magicID3 ++ [UInt8.ofNat vmaj, 0, 0] ++ [a, b, c, d] ++ frames ++
+        zeros (L.tag.length - (frames.length + 10))).length = L.tag.length := by
+      simp [Id3F.magicID3]; omega
+    rw [List.append_assoc _ L.audio]
+    exact List.drop_left' hl
 
 end Mutagen.C09
